@@ -163,6 +163,11 @@ def cases_melody(r):
         f[0] = 220.0
     kw = tasks.draw_params(r, {"cent_tolerance": [50, 25, 100],
                                "hop": [None, 1 / 64, 1 / 32]}, 0.6)
+    if kw.get("hop") is not None and not f[0] > 0:
+        # ">= 1 voiced frame" must hold on the resampled time base too: the grid
+        # point 0 takes the (zero-order-hold) voicing of the first frame
+        f = f.copy()
+        f[0] = abs(f[0]) if f[0] != 0 else 220.0
     exp = {"Voicing Recall": 1.0, "Voicing False Alarm": 0.0,
            "Raw Pitch Accuracy": 1.0, "Raw Chroma Accuracy": 1.0,
            "Overall Accuracy": 1.0}
